@@ -368,7 +368,7 @@ def run(ctx):
             evaluate('cpu', f'{k}m', 'grid-int-m', whole_job=False)
 
     # ---- phase grammar ----------------------------------------------------------------------------------
-    N = ctx.pick(50_000, 150_000)
+    N = ctx.pick(50_000, 100_000)
     for i, rng in ctx.cases(N, 'grammar'):
         num, label = gen_numeral(rng)
         sign = '+' if rng.random() < 0.15 else ''
